@@ -133,7 +133,7 @@ def number_bounds(check: Check, repo: Repo) -> None:
 
 def run(tier: str) -> Check:
     check = Check("C11", tier, EXPLANATION)
-    check.rules = ["ESCAPE", "ESCAPE-RENDER", "ARITY", "TRIAGE-PREMISE", "TOKEN-START", "LINE-OFFSET", "GRAPH-RECURSION", "NUM-BOUND", "DECODE-TOTAL", "CONTEXT"]
+    check.rules = ["ESCAPE", "ESCAPE-RENDER", "ARITY", "TRIAGE-PREMISE", "TOKEN-START", "LINE-OFFSET", "GRAPH-RECURSION", "NUM-BOUND", "DECODE-TOTAL", "CONTEXT", "TERMINATION"]
     repo = Repo()
     esc = escape_engine(repo)
     check.assumptions = [
@@ -158,6 +158,18 @@ def run(tier: str) -> Check:
     from .c10 import META, escape_tables
 
     escape_tables(check, repo, pestlang.read_pest(repo.read(META), META), rule="DECODE-TOTAL", only="another exception")
+    # "terminates": the inliner on tables of silent aliases, cycles included (sa/squashsem.py) - the other passes walk a
+    # finite tree once; this one follows references
+    from ..squashsem import check_inline_silent
+
+    n_i, bad_i = check_inline_silent(repo, "C11 TERMINATION")
+    icon = "src/pest/grammar/optimizers/inliners.py::inline_silent_rules"
+    check.count("inline_model_references", n_i)
+    check.oblige("TERMINATION", icon, "the inliner comes back on every model table of silent aliases (chains, self reference, cycles of two and three)", True)
+    for cat, msg in bad_i:
+        if "does not come back" in cat:
+            check.oblige("TERMINATION", icon, cat, False, finding=Finding("TERMINATION", icon, cat, f"{cat}: {msg}; Parser.from_grammar never returns for such a grammar", {"witness": msg}))
+            break
     graph_recursion(check, repo)
     number_bounds(check, repo)
     check.oblige("ESCAPE", ENTRY, "RecursionError, possible at every function on a call-graph cycle, is converted on the chain (no such site escapes)", True)
